@@ -366,27 +366,19 @@ JFromAttributes(ev, opts) ==
       rn == Flag(ev.rn, opts.retain_names)
       lenBad == Len(coefs) # nr \/ Len(names) # width
       namesBad == ~Distinct(names)
-      keep == IF rc THEN [r \in 1..nr |-> r]
-              ELSE SelectSeq([r \in 1..nr |-> r], LAMBDA r : ~RowIsZero(coefs, r) \/ RowIsConst(rows, r))
-      keptRows == [i \in 1..Len(keep) |-> rows[keep[i]]]
-      dupKept == ~Distinct(keptRows)
+      keep == CleanKeep(rows, coefs, rc)
+      dupKept == ~Distinct([i \in 1..Len(keep) |-> rows[keep[i]]])
       dupAny == ~Distinct(rows)
   IN IF lenBad \/ namesBad \/ dupKept THEN ExpectRaise(ev, "PolynomialConstructionError")
      ELSE IF dupAny /\ ev.out = "raise" THEN ExpectRaise(ev, "PolynomialConstructionError")   \* duplicate among dropped zero terms: either outcome
      ELSE IF ev.out # "ret" THEN "raised"
      ELSE LET r == ev.res[1]
-              erows == IF keep = <<>> THEN <<[j \in 1..width |-> 0]>> ELSE keptRows
-              ecoefs == IF keep = <<>> THEN <<[k \in 1..Size(ev.shape) |-> NZero]>> ELSE [i \in 1..Len(keep) |-> coefs[keep[i]]]
-              cols == IF rn THEN [j \in 1..width |-> j]
-                      ELSE LET used == SelectSeq([j \in 1..width |-> j], LAMBDA j : \E i \in 1..Len(erows) : erows[i][j] > 0)
-                           IN IF used = <<>> THEN <<1>> ELSE used
-              enames == [i \in 1..Len(cols) |-> names[cols[i]]]
-              prows == [i \in 1..Len(erows) |-> [c \in 1..Len(cols) |-> erows[i][cols[c]]]]
+              want == CleanTriple(rows, coefs, names, Size(ev.shape), rc, rn)
           IN IF r.kind # "poly" THEN "type"
              ELSE IF r.shape # ev.shape THEN "shape"
-             ELSE IF r.names # enames THEN "names"
-             ELSE IF RangeOf(r.rows) # RangeOf(prows) \/ Len(r.rows) # Len(prows) THEN "rows"
-             ELSE IF \E i \in 1..Len(prows) : r.coefs[CHOOSE x \in 1..Len(r.rows) : r.rows[x] = prows[i]] # ecoefs[i] THEN "value"
+             ELSE IF r.names # want.names THEN "names"
+             ELSE IF RangeOf(r.rows) # RangeOf(want.rows) \/ Len(r.rows) # Len(want.rows) THEN "rows"
+             ELSE IF \E i \in 1..Len(want.rows) : r.coefs[CHOOSE x \in 1..Len(r.rows) : r.rows[x] = want.rows[i]] # want.coefs[i] THEN "value"
              ELSE "ok"
 \* rebuilding a polynomial from its own attributes / raw view / dictionary
 JRebuild(ev, reg, opts) ==
@@ -590,10 +582,11 @@ JConst(ev, reg) ==
   ELSE IF Len(ev.res) # Len(ev.np) THEN "arity"
   ELSE First([i \in 1..Len(ev.np) |->
          LET r == ev.res[i]  w == ev.np[i]
+             cv == ConstVals(r)
          IN IF ~HasDen(r) THEN "type"
             ELSE IF r.kind = "poly" /\ ~DConst(Den(r)) THEN "value_not_constant"
             ELSE IF r.shape # w.shape THEN "shape"
-            ELSE IF \E k \in 1..Len(w.vals) : ~(ConstVals(r)[k] = w.vals[k] \/ NClose(ConstVals(r)[k], w.vals[k], 40)) THEN "value"
+            ELSE IF cv # w.vals /\ \E k \in 1..Len(w.vals) : ~(cv[k] = w.vals[k] \/ NClose(cv[k], w.vals[k], 40)) THEN "value"
             ELSE IF w.dtype \in {"bool", "int64"} /\ ev.index_result /\ (r.kind # "array" \/ r.dtype # w.dtype) THEN "type"
             ELSE "ok"])
 \* numeric division functions given a non-constant polynomial divisor
